@@ -193,4 +193,90 @@ theorem markPending_total (s : State τ) (e : Env) {t : τ} {col : List τ} (hc 
   simp only [hc, hidx, bind, Except.bind]
   exact checkAll_total _ _ _ (fun m hm' => hm') (fun _ => hm)
 
+theorem sendEach_total (num : Int) (ns : List Nat) : ∀ (s : State τ) (e : Env), (∀ n ∈ ns, n ∈ AList.keys s.node2pending) →
+    ∃ r, sendEach s e num ns = .ok r := by
+  induction ns with
+  | nil => intro s e _; exact ⟨_, rfl⟩
+  | cons n t ih =>
+    intro s e hns
+    obtain ⟨⟨s1, e1⟩, h1⟩ := sendTests_total s e num (hns n (by simp))
+    obtain ⟨f1, _, _⟩ := sendTests_keep h1
+    obtain ⟨r, hr⟩ := ih s1 e1 (fun m hm => by rw [f1]; exact hns m (List.mem_cons_of_mem _ hm))
+    exact ⟨r, by simp only [sendEach, h1, bind, Except.bind]; exact hr⟩
+
+theorem roundRobin_total (ns : List Nat) (hne : ns ≠ []) (k : Nat) : ∀ (i : Nat) (s : State τ) (e : Env),
+    (∀ n ∈ ns, n ∈ AList.keys s.node2pending) → ∃ r, roundRobin ns s e k i = .ok r := by
+  induction k with
+  | zero => intro i s e _; exact ⟨_, rfl⟩
+  | succ k ih =>
+    intro i s e hns
+    have hlen : 0 < ns.length := List.length_pos_iff.2 hne
+    have hlt : i % ns.length < ns.length := Nat.mod_lt _ hlen
+    have hget : ns[i % ns.length]? = some ns[i % ns.length] := by simp [hlt]
+    obtain ⟨⟨s1, e1⟩, h1⟩ := sendTests_total s e 1 (hns _ (List.getElem_mem hlt))
+    obtain ⟨f1, _, _⟩ := sendTests_keep h1
+    obtain ⟨r, hr⟩ := ih (i + 1) s1 e1 (fun m hm => by rw [f1]; exact hns m hm)
+    refine ⟨r, ?_⟩
+    simp only [roundRobin, hget, h1, bind, Except.bind]
+    exact hr
+
+theorem initialSend_total (s : State τ) (e : Env) (n : Nat) (msc : Int) (hk : s.node2pending ≠ []) :
+    ∃ r, initialSend s e n msc = .ok r := by
+  have hne : nodes s ≠ [] := by
+    unfold nodes AList.keys
+    intro hh
+    exact hk (List.map_eq_nil_iff.1 hh)
+  have hdist : ∃ r, initialDistribute s e n msc = .ok r := by
+    unfold initialDistribute
+    simp only
+    split
+    · exact roundRobin_total _ hne _ _ _ _ (fun m hm => hm)
+    · have : s.node2pending.length ≠ 0 := by
+        intro hz; exact hk (List.length_eq_zero_iff.1 hz)
+      simp only [this, ↓reduceIte]
+      exact sendEach_total _ _ _ _ (fun m hm => hm)
+  obtain ⟨r, hr⟩ := hdist
+  unfold initialSend
+  simp only [hr, Except.bind]
+  split <;> exact ⟨_, rfl⟩
+
+/-- `schedule()` once the collection is complete -/
+theorem schedule_total (s : State τ) (e : Env) (hc : collectionIsCompleted s = true) (hm : MscOk s) (hk : s.node2pending ≠ [])
+    (hcol : s.collection = none → s.node2collection ≠ []) : ∃ r, schedule s e = .ok r := by
+  unfold schedule
+  simp only [hc, Bool.not_true, Bool.false_eq_true, ↓reduceIte]
+  cases hcl : s.collection with
+  | some col => exact checkAll_total _ _ _ (fun m hm' => hm') hm
+  | none =>
+    simp only
+    cases hn : s.node2collection with
+    | nil => exact absurd hn (hcol hcl)
+    | cons p rest =>
+      obtain ⟨first, col⟩ := p
+      simp only
+      unfold scheduleFirst
+      simp only
+      split
+      · exact ⟨_, rfl⟩
+      · split
+        · exact ⟨_, rfl⟩
+        · exact initialSend_total _ _ _ _ hk
+
+/-- `add_node_collection` for a registered node -/
+theorem addNodeCollection_total (s : State τ) {n : Nat} (c : List τ) (hn : n ∈ AList.keys s.node2pending)
+    (hcomp : collectionIsCompleted s = true → ∃ col, s.collection = some col ∧ col ≠ []) :
+    ∃ s', addNodeCollection s n c = .ok s' := by
+  have hcon : s.node2pending.contains n = true := by
+    unfold AList.contains; exact (AList.lookup_isSome_iff_mem_keys _ _).2 hn
+  unfold addNodeCollection
+  simp only [hcon, Bool.not_true, Bool.false_eq_true, ↓reduceIte]
+  split
+  · rename_i hc
+    obtain ⟨col, h1, h2⟩ := hcomp hc
+    simp only [h1]
+    have : col.isEmpty = false := by cases col <;> simp_all
+    simp only [this, Bool.false_eq_true, ↓reduceIte]
+    split <;> exact ⟨_, rfl⟩
+  · exact ⟨_, rfl⟩
+
 end Xdist.Load
